@@ -1,12 +1,15 @@
 package verifharness
 
 import (
+	"bytes"
 	"fmt"
 	"net"
 	"time"
 
+	"github.com/Jigsaw-Code/outline-sdk/transport/shadowsocks"
 	"github.com/Jigsaw-Code/outline-ss-server/verifrt/simnet"
 	"github.com/Jigsaw-Code/outline-ss-server/verifrt/simrt"
+	"github.com/shadowsocks/go-shadowsocks2/socks"
 )
 
 // c16x: the exported UDP counters under association churn. The NAT timeout is
@@ -89,7 +92,11 @@ func runC16x(rc *RunCtx) {
 			if G.Draw(2) == 0 {
 				dest = hosts[G.Draw(2)] + ":5300"
 			}
-			shots = append(shots, shot{time.Duration(G.Draw(14)) * T / 10, dest, payload(G, 1+G.Draw(300))})
+			// bodies carry the client's number and have a different length for every
+			// shot of a client: reports (which carry sizes) and forwards (which carry
+			// the body) can be matched to the shot without relying on any order
+			body := append([]byte(fmt.Sprintf("c%d|", c)), payload(G, 8+k*40+G.Draw(40))...)
+			shots = append(shots, shot{time.Duration(G.Draw(14)) * T / 10, dest, body})
 		}
 		total += len(shots)
 		f := &flag{}
@@ -140,32 +147,75 @@ func runC16x(rc *RunCtx) {
 	// association. (Not "after the removal was reported": the repository reports
 	// the removal a moment before it takes the entry out of its table, and a
 	// datagram slipping in between is legitimately handled by the dying entry.)
-	// Per client the reports follow the order in which its datagrams were read;
-	// every datagram of this scenario is valid and is reported. Associations and
-	// outbound sockets correspond in order of creation.
-	var outSocks []*simnet.UDPConn
+	// Matching is by ledger facts: a client's sockets are those that forwarded a
+	// body with its tag; its associations and its sockets correspond in order of
+	// creation (per client: two associations of one client never coexist); a report
+	// belongs to the client's datagram of that wire size. Anything ambiguous is
+	// left unjudged.
+	socksOf := map[string][]*simnet.UDPConn{} // client tag -> its outbound sockets, in creation order
 	for _, sk := range w.Socks {
-		if !sk.Foreign && sk != srv.Sock {
-			outSocks = append(outSocks, sk)
+		if sk.Foreign || sk == srv.Sock {
+			continue
+		}
+		tag := ""
+		for _, d := range w.Dgrams {
+			if d.FromSock == sk {
+				if k := bytes.IndexByte(d.Payload, '|'); k > 0 && d.Payload[0] == 'c' {
+					tag = string(d.Payload[:k+1])
+				}
+				break
+			}
+		}
+		if tag != "" {
+			socksOf[tag] = append(socksOf[tag], sk)
 		}
 	}
-	if len(outSocks) == len(m.UDP) {
-		sent := map[string][]time.Duration{}
-		for _, d := range srv.Sock.ReadLog {
-			sent[d.From.String()] = append(sent[d.From.String()], d.At)
+	tagOf := map[string]string{} // client address -> tag
+	sentAt := map[string]map[int]time.Duration{}
+	dupSize := map[string]map[int]bool{}
+	for _, d := range srv.Sock.ReadLog {
+		from := d.From.String()
+		pl, err := shadowsocksUnpackAny(keys, d.Payload)
+		if err != nil {
+			continue
 		}
-		nth := map[string]int{}
-		for i, rec := range m.UDP {
-			sk := outSocks[i]
-			for _, cl := range rec.Calls {
-				if cl.Kind != "fromclient" {
-					continue
-				}
-				k := nth[rec.Client]
-				nth[rec.Client]++
-				if k < len(sent[rec.Client]) && sk.IsClosed() && sent[rec.Client][k] > sk.ClosedAt {
-					rc.Failf("datagram-reported-on-dead-association", "client %s: its datagram #%d was sent at %v, after the outbound socket of its association (key %s) had been closed at %v, and was reported on that association (status %s) instead of creating a new one", rec.Client, k, sent[rec.Client][k], rec.Key, sk.ClosedAt, cl.Status)
-				}
+		if a := socks.SplitAddr(pl); a != nil {
+			body := pl[len(a):]
+			if k := bytes.IndexByte(body, '|'); k > 0 && body[0] == 'c' {
+				tagOf[from] = string(body[:k+1])
+			}
+		}
+		if sentAt[from] == nil {
+			sentAt[from], dupSize[from] = map[int]time.Duration{}, map[int]bool{}
+		}
+		if _, seen := sentAt[from][len(d.Payload)]; seen {
+			dupSize[from][len(d.Payload)] = true
+		}
+		sentAt[from][len(d.Payload)] = d.At
+	}
+	nthRec := map[string]int{}
+	perClient := map[string]int{}
+	for _, rec := range m.UDP {
+		perClient[rec.Client]++
+	}
+	for _, rec := range m.UDP {
+		i := nthRec[rec.Client]
+		nthRec[rec.Client]++
+		sks := socksOf[tagOf[rec.Client]]
+		if len(sks) != perClient[rec.Client] {
+			continue // (an association whose forwards all failed has no tagged socket)
+		}
+		sk := sks[i]
+		for _, cl := range rec.Calls {
+			if cl.Kind != "fromclient" {
+				continue
+			}
+			at, ok := sentAt[rec.Client][int(cl.A)]
+			if !ok || dupSize[rec.Client][int(cl.A)] {
+				continue
+			}
+			if sk.IsClosed() && at > sk.ClosedAt {
+				rc.Failf("datagram-reported-on-dead-association", "client %s: its %d-byte datagram was sent at %v, after the outbound socket of its association (key %s) had been closed at %v, and was reported on that association (status %s) instead of creating a new one", rec.Client, cl.A, at, rec.Key, sk.ClosedAt, cl.Status)
 			}
 		}
 	}
@@ -174,4 +224,16 @@ func runC16x(rc *RunCtx) {
 	rc.D("T=%v clients=%d datagrams=%d associations=%d reported-after-removal=%d", T, nC, total, len(m.UDP), late)
 	rc.PostData = m
 	rc.Phase = "done"
+}
+
+// shadowsocksUnpackAny decrypts a datagram under whichever key of the list opens it.
+func shadowsocksUnpackAny(keys []*Key, wire []byte) ([]byte, error) {
+	var err error
+	for _, k := range keys {
+		var pl []byte
+		if pl, err = shadowsocks.Unpack(nil, wire, k.EK); err == nil {
+			return pl, nil
+		}
+	}
+	return nil, err
 }
